@@ -14,6 +14,7 @@ generated file                         source
   OhkamiModel/GenMime.lean             ohkami_lib/src/mime.rs
   OhkamiModel/GenConsts.lean           request/mod.rs BUF_SIZE / PAYLOAD_LIMIT, request/path.rs Params::LIMIT
   OhkamiModel/GenSchemaTypes.lean      ohkami_openapi/src/schema.rs `Type::*::NAME`
+  OhkamiModel/GenNum.lean              ohkami_lib/src/num.rs: the `unroll!` digit list of itoa, the nibble arms of hexized
   harness/src/gen_tables.rs            the variant lists as Rust macros (so the executor can address every header/status by name)
 """
 import os, re, subprocess, sys
@@ -216,6 +217,29 @@ def gen_schema_types():
     return '\n'.join(out) + '\n', rows
 
 
+def gen_num():
+    src = read('ohkami_lib/src/num.rs')
+    m = re.search(r'unroll!\(([\d,\s]+)\);', src)
+    if not m:
+        raise TranslateError('itoa: unroll!(..) list not found')
+    unroll = [int(x) for x in m.group(1).replace(' ', '').split(',') if x]
+    body = re.search(r'\(\$digit:expr, \$\(\$tail:tt\)\*\) => \{\s*if \$digit <= MAX && n >= 10_usize\.pow\(\$digit\) \{\s*unroll!\(\$\(\$tail\)\*\);\s*'
+                     r'let q = n / 10_usize\.pow\(\$digit\);\s*push_unchecked\(b\'0\' \+ q as u8\);\s*n -= 10_usize\.pow\(\$digit\) \* q\s*\}\s*\};', src)
+    last = re.search(r"unroll!\([\d,\s]+\);\s*push_unchecked\(b'0' \+ n as u8\);", src)
+    if not body or not last:
+        raise TranslateError('itoa: the unroll! arm or the final push left the translated shape')
+    h = re.search(r'n\.to_be_bytes\(\)\.map\(\|byte\| \[byte>>4, byte&0b1111\]\)\s*\)\.map\(\|h\| h \+ match h \{\s*0\.\.=9\s*=> b\'0\'-0,\s*10\.\.=15 => b\'a\'-10,\s*_ => std::hint::unreachable_unchecked\(\)', src)
+    if not h:
+        raise TranslateError('hexized_bytes left the translated shape')
+    out = ['/-! GENERATED from ohkami_lib/src/num.rs -/', 'namespace Ohkami.Gen',
+           '/-- the digit positions `itoa` unrolls, in source order -/',
+           f'def itoaUnroll : List Nat := [{", ".join(map(str, unroll))}]',
+           '/-- `hexized_bytes`: (lo, hi, offset added) per match arm -/',
+           f'def hexArms : List (Nat × Nat × Nat) := [(0, 9, {ord("0") - 0}), (10, 15, {ord("a") - 10})]',
+           'end Ohkami.Gen']
+    return '\n'.join(out) + '\n'
+
+
 def gen_rust_tables(req_rows, res_rows, status_rows):
     out = ['// GENERATED by /verif/tools/translate.py from /repo — do not edit',
            '#[allow(unused_macros)]',
@@ -248,6 +272,7 @@ def run(verbose=False):
     emit('GenMime', gen_mime)
     emit('GenConsts', gen_consts)
     emit('GenSchemaTypes', gen_schema_types)
+    emit('GenNum', gen_num)
     if rq and rs and st:
         if write_if_changed(os.path.join(VERIF, 'harness', 'src', 'gen_tables.rs'), gen_rust_tables(rq[1], rs[1], st[1])):
             changed.append('harness/src/gen_tables.rs')
